@@ -676,6 +676,7 @@ func c15AVCScenario(c *Ctx) {
 		c.Sample(req)
 	}
 	for _, p := range ppss {
+		avcPPSModelCases(c, r, p.NALU, spsN)
 		req := "avcpps " + hx(p.NALU) + " " + hxList(spsN)
 		c.Eval(req)
 		c.Count("avc-pps")
@@ -691,6 +692,7 @@ func c15AVCScenario(c *Ctx) {
 		p := ppss[r.Intn(len(ppss))]
 		s := byID[p.SPSID]
 		sl := genAVCSlice(r, s, p)
+		avcSliceModelCases(c, r, sl.NALU, spsN, ppsN)
 		req := "avcslice " + hx(sl.NALU) + " " + hxList(spsN) + " " + hxList(ppsN)
 		c.Eval("avcslice " + hx(sl.NALU))
 		c.Count("avc-slice")
@@ -843,6 +845,7 @@ func c15HEVCScenario(c *Ctx) {
 		byID[s.ID] = s
 	}
 	for _, s := range spss {
+		hevcSPSModelCases(c, r, s.NALU)
 		req := "hevcsps " + hx(s.NALU)
 		c.Eval(req)
 		c.Count("hevc-sps")
@@ -852,6 +855,7 @@ func c15HEVCScenario(c *Ctx) {
 		checkFields(c, "hevcsps", req, s.Exp)
 	}
 	for _, p := range ppss {
+		hevcPPSModelCases(c, r, p.NALU, spsN)
 		req := "hevcpps " + hx(p.NALU) + " " + hxList(spsN)
 		c.Eval(req)
 		c.Count("hevc-pps")
@@ -867,6 +871,7 @@ func c15HEVCScenario(c *Ctx) {
 		p := ppss[r.Intn(len(ppss))]
 		s := byID[p.SPSID]
 		sl := genHEVCSlice(r, s, p)
+		hevcSliceModelCases(c, r, sl.NALU, spsN, ppsN)
 		req := "hevcslice " + hx(sl.NALU) + " " + hxList(spsN) + " " + hxList(ppsN)
 		c.Eval("hevcslice " + hx(sl.NALU))
 		c.Count("hevc-slice")
